@@ -564,6 +564,9 @@ class SReal:
             return ssqrt(self)
         raise OutOfReach(f"power {o!r} of a symbolic real")
 
+    def __rpow__(self, base):
+        return spow(base, self)
+
     def __neg__(self):
         return SReal.mk(-self.z)
 
@@ -652,6 +655,29 @@ def ssqrt(x):
     r = SReal(s)
     _SQRT_CACHE[key] = r
     return r
+
+
+_POW = {}
+
+
+def spow(base, x):
+    """base ** x for a positive rational base and a symbolic real exponent: an uninterpreted function
+    application with the axiom  base**x > 0  (nothing else is used)."""
+    if isinstance(base, float):
+        base = _frac(base)
+    if not (isinstance(base, (int, Fraction)) and base > 0):
+        raise OutOfReach("power with a symbolic or non-positive base")
+    f = _POW.setdefault(str(base), z3.Function(f"pow[{base}]", z3.RealSort(), z3.RealSort()))
+    v = f(SReal.lift(x))
+    cur().assume(v > 0, base=True)
+    return SReal(v)
+
+
+def slog10(x):
+    f = _POW.setdefault("log10", z3.Function("log10", z3.RealSort(), z3.RealSort()))
+    xz = SReal.lift(x)
+    cur().require("log.positive", SBool.mk(xz > 0), f"log10 argument {xz} is positive")
+    return SReal(f(xz))
 
 
 def is_sym(x):
